@@ -18,7 +18,7 @@ HOOK_COMMITS = []
 
 PROPS = {
     "C01": dict(
-        modules=["Whawty.Props.C01", "Whawty.Props.GenFiles"],
+        modules=["Whawty.Props.C01", "Whawty.Props.GenFiles", "Whawty.Props.GenHashStr"],
         suites=[("hdrv", "c01"), ("hdrv", "c15i"), ("overlay", "v11s")],
         level_text="Store operations are pure functions on a directory map following store.go / userhash.go branch by "
                    "branch; write-then-authenticate (verdict = digest equality with the last written password, via the "
@@ -41,7 +41,7 @@ PROPS = {
         assumptions=["no symlinks or special files inside the base directory"],
     ),
     "C02": dict(
-        modules=["Whawty.Props.C02", "Whawty.Props.GenFiles"],
+        modules=["Whawty.Props.C02", "Whawty.Props.GenFiles", "Whawty.Props.GenHashStr"],
         suites=[("hdrv", "c02"), ("overlay4", "v02")],
         level_text="auth_iff_record: for ANY bytes as the user's file, authentication succeeds iff the first line parses "
                    "(model of bufio.ReadString, SplitN, strconv.ParseInt/ParseUint, Go's non-strict URL base64) as a record "
